@@ -9,6 +9,7 @@ import Rtp.Proofs.AV1PaySim
 import Rtp.Proofs.AV1PayIdx
 namespace Rtp.Props.C08.AV1
 open Rtp Rtp.Model Rtp.Model.AV1
+open Rtp.Model.ObuLemmas
 
 theorem step_size (mtu : Nat) (hm : 2 ≤ mtu) (hs : mtu ≤ 65535) (s : PSt) (hb : ObuHeader × Bytes)
     (h : ∀ p ∈ s.out, p.size ≤ mtu) : ∀ p ∈ (step mtu s hb).out, p.size ≤ mtu := by
